@@ -209,6 +209,7 @@ fn main() {
 			Err(p) => { rec.oracle_fail(format!("scenario {} (seed {}) panicked in honest operation: {}", sc, seed, p.chars().take(200).collect::<String>())); continue; },
 		};
 		if trace_on { eprintln!("=== scenario {} seed {} t={} async={} points={}", sc, seed, t, async_t, pts.len()); for (k, p) in pts.iter().enumerate() { eprintln!("  pt{} {} {:?}", k, p.op, p.views); } }
+		if std::env::var("VERIF_TRACE").map(|v| v == "3").unwrap_or(false) { let mut pi = 0; for (k, o) in net.trace.iter().enumerate() { while pi < pts.len() && pts[pi].trace_len <= k { eprintln!("   -- pt{} {}", pi, pts[pi].op); pi += 1; } if !matches!(o, Obs::Balance { .. }) { eprintln!("      {}", fmt_obs(o)); } } }
 		let my = chans_of(&net, t);
 		track_run(&mut rec, sc, t, &net, &pts, &my);
 		std::mem::forget(net);
@@ -242,7 +243,7 @@ fn main() {
 		// not stale manager, stale manager, inadmissible — and keep at most two worlds per abstract world
 		let mut wrng = Rng::new(seed ^ 0xC10);
 		for i in (1..worlds.len()).rev() { let j = wrng.below(i as u64 + 1) as usize; worlds.swap(i, j); }
-		if worlds_per_scen != usize::MAX {
+		if worlds_per_scen != usize::MAX && std::env::var("VERIF_C10_WORLD").is_err() {
 			let key = |w: &World| -> String { let mut k = String::new(); for c in 0..my.len() { let v = &pts[w.q].views[c]; let m = &pts[w.mon_pts[c]].views[c]; k.push_str(&format!("{:?}/{:?}/{}|", v.chan, v.inflight, m.mon_id)); } k };
 			let bucket = |w: &World| -> usize { if !w.admissible { 3 } else if (0..my.len()).any(|c| pts[w.q].views[c].chan.unwrap()[0] < pts[w.mon_pts[c]].views[c].mon_id) { 2 } else if w.q == w.p { 0 } else { 1 } };
 			let quota = [worlds_per_scen * 3 / 10, worlds_per_scen * 3 / 10, worlds_per_scen * 2 / 10, worlds_per_scen * 2 / 10];
